@@ -7,11 +7,10 @@ PATCH=$(readlink -f "$1"); shift
 WT=$(mktemp -d /tmp/mut-XXXXXX)
 rmdir "$WT"
 git -C /repo worktree add -q --detach "$WT" "${MUT_BASE:-HEAD}" || exit 2
-BEFORE=$(ls -d /verif/work/e2-* 2>/dev/null | sort)
 cleanup() {
   git -C /repo worktree remove --force "$WT" 2>/dev/null; rm -rf "$WT"
-  # E2 build directories of this scratch copy
-  for d in $(ls -d /verif/work/e2-* 2>/dev/null | sort); do echo "$BEFORE" | grep -qx "$d" || rm -rf "$d"; done
+  # E2 build directories of this scratch copy (each carries the path of the repository copy it belongs to)
+  for d in $(ls -d /verif/work/e2-* 2>/dev/null); do [ "$(cat "$d/.owner" 2>/dev/null)" = "$WT" ] && rm -rf "$d"; done
 }
 trap cleanup EXIT
 if ! git -C "$WT" apply "$PATCH"; then echo "patch does not apply"; exit 2; fi
